@@ -74,7 +74,7 @@ import PS.Proofs.Enum.BeapOrderFinal
 import PS.Proofs.Enum.BeapAcyclic
 import PS.Props.C02_Beap
 namespace PS.C03Beap
-open PS PS.G PS.Beap PS.Heapq
+open PS PS.G PS.Beap PS.Heapq PS.C02Beap
 
 section
 variable {S : Type} [DecidableEq S]
@@ -336,38 +336,6 @@ open PS.C02Beap in
 example : (initNT demoE 100 (St.empty demoG) ntX).map (fun s => (s.clOf ntY, (s.queueOf ntX).map (fun e => e.cost.inf))) =
     some ([Cost.ofRat 5], [0, 1, 0]) := by
   decide +kernel
-
-open PS.C02Beap in
-/-- every non-terminal of the demo grammar derives a program (`a`, `b`, `c`) -/
-theorem demo_productive : Productive demoE := by
-  intro nt _
-  by_cases h1 : nt = ntX
-  · subst h1; exact ⟨.node (sy 2) [], 1, by decide +kernel⟩
-  · by_cases h2 : nt = ntY
-    · subst h2; exact ⟨.node (sy 4) [], 6, by decide +kernel⟩
-    · by_cases h3 : nt = ntZ
-      · subst h3; exact ⟨.node (sy 6) [], 4, by decide +kernel⟩
-      · rename_i h
-        simp [demoE, demoG, AList.lookup, Ne.symm h1, Ne.symm h2, Ne.symm h3] at h
-
-/-- `PosW` from a Boolean check of the cost table -/
-theorem posW_of_check {S : Type} [DecidableEq S] (E : Env S)
-    (h : E.W.all (fun r => r.2.all (fun e => decide (0 < e.2))) = true) : PosW E := by
-  intro nt P w hw
-  unfold ruleW at hw
-  split at hw
-  · cases hw
-  · next ws hws =>
-    have h1 := AList.lookup_some_mem hws
-    have h2 := AList.lookup_some_mem hw
-    rw [List.all_eq_true] at h
-    have h3 := h _ h1
-    rw [List.all_eq_true] at h3
-    simpa using h3 _ h2
-
-open PS.C02Beap in
-/-- every rule cost of the demo grammar is positive -/
-theorem demo_posW : PosW demoE := posW_of_check demoE (by decide +kernel)
 
 open PS.C02Beap in
 /-- non-vacuity of C03_Beap_order: all hypotheses hold on the demo grammar -/
